@@ -203,11 +203,33 @@ def check(s):
     s.notes.append(f"C18.4: {len(pols)} policy classes, {n} array-annotated fields")
     # ---------------------------------------------------------------- C18.5 the skeleton can be built: constructors are shape-evaluable
     check_constructors_traceable(s)
+    # C18.7 "or fails loudly": nothing on the save / load path catches an exception without re-raising it (serialize runs inside
+    # callback_wrapper's host callback, so a handler there turns a failed save into a silent no-op)
+    import ast as _ast
+    mu = P.modules["lerax.utils"]
+    units = [("callback_wrapper", mu.functions.get("callback_wrapper")), ("Serializable.serialize", P.cls("Serializable").methods.get("serialize")),
+             ("Serializable.deserialize", P.cls("Serializable").methods.get("deserialize"))]
+    for nm, fn_ in units:
+        if fn_ is None:
+            raise AnalysisError(f"C18.7: anchor {nm} vanished")
+        swallow = []
+        for n_ in _ast.walk(fn_):
+            if isinstance(n_, _ast.Try):
+                for h_ in n_.handlers:
+                    reraises = any(isinstance(x, _ast.Raise) for x in _ast.walk(h_))
+                    if not reraises:
+                        swallow.append(f"line {h_.lineno}: except {_ast.unparse(h_.type) if h_.type is not None else ''} does not re-raise")
+            if isinstance(n_, _ast.With):
+                for it_ in n_.items:
+                    if "suppress" in _ast.unparse(it_.context_expr):
+                        swallow.append(f"line {n_.lineno}: {_ast.unparse(it_.context_expr)[:40]}")
+        s.ob("C18.7", nm, not swallow, "no exception raised while saving / loading is swallowed", P.loc(mu, fn_), key="swallowed-exception", detail="; ".join(swallow),
+             necessary_for="a save that cannot be written and a load that cannot be read fail loudly")
     # C18.6 a loaded policy went through a pytree unflatten: mapping-valued fields (Dict spaces) must keep their order there, or the
     # restored policy feeds its network a permuted observation although every parameter is bit-identical
     from .C12 import check_mapping_fields
     check_mapping_fields(s, "C18.6")
-    for r_, n_ in (("C18.1", 1), ("C18.2", 9), ("C18.3", 6), ("C18.4", 1), ("C18.5", 30), ("C18.6", 2)):
+    for r_, n_ in (("C18.1", 1), ("C18.2", 9), ("C18.3", 6), ("C18.4", 1), ("C18.5", 30), ("C18.6", 2), ("C18.7", 3)):
         s.floor(r_, n_)
 
 
